@@ -865,3 +865,146 @@ Proof.
   unfold parse_comment_attrs. apply flat_map_ext. intros [i m]. cbn [a_meta].
   destruct m as [p|p x y|p v]; try reflexivity. destruct v; [reflexivity|]. now destruct (path_is_ident p (lit "doc")).
 Qed.
+
+(* ================= Part 10: the Scala renderer as code parts and comment fragments ================= *)
+Definition sc_part_text (p : c15_part) : str :=
+  match p with CPcode s => s | CPdoc _ i ds => sc_write_comments i ds end.
+
+Lemma sc_file_text ps : text_of (c15_file_pieces C15sc ps) = flat_map sc_part_text ps.
+Proof.
+  induction ps as [|p r IH]; [reflexivity|].
+  unfold c15_file_pieces in *. cbn [flat_map]. rewrite text_of_app, IH. f_equal.
+  destruct p as [s|b i ds]; cbn [c15_part_pieces sc_part_text c15_tmpl].
+  - cbn. now rewrite app_nil_r.
+  - apply C15_fragment_sc.
+Qed.
+
+Definition sc_member_code (m : sc_member) : str :=
+  [ch_tab] ++ scm_name m ++ lit ": " ++ sc_show (scm_type m) ++
+  match scm_default m with
+  | SCDefUnderscore => lit " = _"
+  | SCDefNone => lit " = None"
+  | SCDefAbsent => []
+  end.
+Definition sc_parts_member (m : sc_member) : list c15_part := [CPdoc false 1 (scm_docs m); CPcode (sc_member_code m)].
+Fixpoint sc_parts_members (ms : list sc_member) : list c15_part :=
+  match ms with
+  | [] => []
+  | [m] => sc_parts_member m
+  | m :: r => sc_parts_member m ++ [CPcode (lit "," ++ sc_nl)] ++ sc_parts_members r
+  end.
+
+Definition sc_variant_code (v : sc_variant) : str :=
+  [ch_tab] ++
+  match scv_payload v with
+  | SCPayUnit => lit "case object " ++ scv_name v
+  | SCPayTuple gs content ty =>
+    lit "case class " ++ scv_name v ++ sc_generic_parameters gs ++ lit "(" ++
+    content ++ lit ": " ++ sc_show ty ++ lit ")"
+  | SCPayInner gs content inner args =>
+    lit "case class " ++ scv_name v ++ sc_generic_parameters gs ++ lit "(" ++
+    content ++ lit ": " ++ inner ++ sc_generic_parameters args ++ lit ")"
+  end ++
+  lit " extends " ++ scv_parent v ++ sc_generic_parameters (scv_parent_generics v) ++ lit " {" ++ sc_nl ++
+  [ch_tab; ch_tab] ++ lit "val serialName: String = " ++ debug_str (scv_wire v) ++ sc_nl ++
+  [ch_tab] ++ lit "}" ++ sc_nl.
+Definition sc_parts_variant (v : sc_variant) : list c15_part := [CPdoc false 1 (scv_docs v); CPcode (sc_variant_code v)].
+
+Definition sc_parts_decl (d : sc_decl) : list c15_part :=
+  match d with
+  | SCAlias docs name gs ty =>
+    [CPdoc false 0 docs; CPcode (lit "type " ++ name ++ sc_generic_parameters gs ++ lit " = " ++ sc_show ty ++ sc_nl ++ sc_nl)]
+  | SCCaseClass docs name gs ms =>
+    [CPdoc false 0 docs; CPcode (lit "case class " ++ name ++ sc_generic_parameters gs ++ lit " (" ++ sc_nl)] ++
+    sc_parts_members ms ++ [CPcode (sc_nl ++ lit ")" ++ sc_nl ++ sc_nl)]
+  | SCEmptyClass docs name =>
+    [CPdoc false 0 docs; CPcode (lit "class " ++ name ++ lit " extends Serializable" ++ sc_nl ++ sc_nl)]
+  | SCEnum docs name gs vs =>
+    [CPdoc false 0 docs;
+     CPcode (lit "sealed trait " ++ name ++ sc_generic_parameters gs ++ lit " {" ++ sc_nl ++
+             [ch_tab] ++ lit "def serialName: String" ++ sc_nl ++
+             lit "}" ++ sc_nl ++
+             lit "object " ++ name ++ lit " {" ++ sc_nl)] ++
+    flat_map sc_parts_variant vs ++ [CPcode (lit "}" ++ sc_nl ++ sc_nl)]
+  | SCHelperAliases l =>
+    [CPcode (List.concat (map (fun nt => lit "type " ++ fst nt ++ lit " = " ++ sc_show (snd nt) ++ sc_nl) l) ++ sc_nl)]
+  end.
+
+(* the doc strings of a Scala declaration, in print order *)
+Definition sc_decl_docs (d : sc_decl) : list str :=
+  match d with
+  | SCAlias docs _ _ _ | SCEmptyClass docs _ => docs
+  | SCCaseClass docs _ _ ms => docs ++ flat_map scm_docs ms
+  | SCEnum docs _ _ vs => docs ++ flat_map scv_docs vs
+  | SCHelperAliases _ => []
+  end.
+
+Lemma sc_members_text ms :
+  flat_map sc_part_text (sc_parts_members ms) = join (lit "," ++ sc_nl) (map sc_render_member ms).
+Proof.
+  assert (E : forall m, flat_map sc_part_text (sc_parts_member m) = sc_render_member m).
+  { intros m. cbn [sc_parts_member flat_map sc_part_text]. unfold sc_render_member, sc_member_code. now rewrite app_nil_r. }
+  induction ms as [|m [|m2 r] IH]; [reflexivity|apply E|].
+  change (sc_parts_members (m :: m2 :: r)) with (sc_parts_member m ++ [CPcode (lit "," ++ sc_nl)] ++ sc_parts_members (m2 :: r)).
+  change (join (lit "," ++ sc_nl) (map sc_render_member (m :: m2 :: r)))
+    with (sc_render_member m ++ (lit "," ++ sc_nl) ++ join (lit "," ++ sc_nl) (map sc_render_member (m2 :: r))).
+  rewrite !flat_map_app, E, IH. cbn [flat_map sc_part_text]. now rewrite app_nil_r.
+Qed.
+
+Lemma sc_members_docs ms : flat_map c15_part_docs (sc_parts_members ms) = flat_map scm_docs ms.
+Proof.
+  induction ms as [|m [|m2 r] IH]; [reflexivity| |].
+  - cbn. now rewrite ?app_nil_r.
+  - change (sc_parts_members (m :: m2 :: r)) with (sc_parts_member m ++ [CPcode (lit "," ++ sc_nl)] ++ sc_parts_members (m2 :: r)).
+    rewrite !flat_map_app, IH. cbn [sc_parts_member flat_map c15_part_docs app]. now rewrite ?app_nil_r.
+Qed.
+
+Theorem sc_decl_parts_text d : text_of (c15_file_pieces C15sc (sc_parts_decl d)) = sc_render_decl d.
+Proof.
+  rewrite sc_file_text.
+  destruct d as [docs name gs ty|docs name gs ms|docs name|docs name gs vs|l]; cbn [sc_parts_decl sc_render_decl].
+  - cbn [flat_map sc_part_text]. now rewrite app_nil_r.
+  - rewrite !flat_map_app, sc_members_text. cbn [flat_map sc_part_text]. rewrite app_nil_r. now rewrite <- ?app_assoc.
+  - cbn [flat_map sc_part_text]. now rewrite app_nil_r.
+  - assert (E : flat_map sc_part_text (flat_map sc_parts_variant vs) = List.concat (map sc_render_variant vs)).
+    { rewrite flat_map_flat_map, <- flat_map_concat_map. apply flat_map_ext. intros v.
+      cbn [sc_parts_variant flat_map sc_part_text]. unfold sc_render_variant, sc_variant_code. now rewrite app_nil_r. }
+    rewrite !flat_map_app, E. cbn [flat_map sc_part_text]. now rewrite ?app_nil_r, <- ?app_assoc.
+  - cbn [flat_map sc_part_text]. now rewrite app_nil_r.
+Qed.
+
+Theorem sc_decl_parts_docs d : docs_of (c15_file_pieces C15sc (sc_parts_decl d)) = sc_decl_docs d.
+Proof.
+  rewrite c15_file_docs. change (fun p => match p with CPcode _ => [] | CPdoc _ _ ds => ds end) with c15_part_docs.
+  destruct d as [docs name gs ty|docs name gs ms|docs name|docs name gs vs|l]; cbn [sc_parts_decl sc_decl_docs].
+  - cbn. now rewrite app_nil_r.
+  - rewrite !flat_map_app, sc_members_docs. cbn. now rewrite ?app_nil_r.
+  - cbn. now rewrite app_nil_r.
+  - rewrite !flat_map_app, flat_map_flat_map. cbn [flat_map c15_part_docs app]. rewrite ?app_nil_r. f_equal.
+    apply flat_map_ext. intros v. cbn. now rewrite app_nil_r.
+  - reflexivity.
+Qed.
+
+Theorem C15_sc_decl_partial d : Forall (c15_code_neutral C15sc) (sc_parts_decl d) ->
+  c15_contained C15sc LCode (mark (c15_file_pieces C15sc (sc_parts_decl d))) = forallb safe_sc (sc_decl_docs d).
+Proof.
+  intros H. rewrite (C15_file_exact C15sc _ H), <- sc_decl_parts_docs, c15_file_docs.
+  induction (sc_parts_decl d) as [|p r IH]; [reflexivity|].
+  cbn [forallb flat_map]. rewrite forallb_app. inversion H; subst. rewrite IH by assumption. f_equal.
+  now destruct p.
+Qed.
+
+(* the model's write_struct / write_enum / write_type_alias for Scala: every declaration printed for the
+   item is code parts + comment fragments carrying exactly that declaration's doc strings *)
+Theorem C15_sc_render_partial d :
+  exists parts,
+    sc_render_decl d = text_of (c15_file_pieces C15sc parts) /\
+    docs_of (c15_file_pieces C15sc parts) = sc_decl_docs d /\
+    (Forall (c15_code_neutral C15sc) parts ->
+     c15_contained C15sc LCode (mark (c15_file_pieces C15sc parts)) = forallb safe_sc (sc_decl_docs d)).
+Proof.
+  exists (sc_parts_decl d). repeat split.
+  - symmetry. apply sc_decl_parts_text.
+  - apply sc_decl_parts_docs.
+  - apply C15_sc_decl_partial.
+Qed.
